@@ -156,13 +156,17 @@ def main():
     # ---- 4. compare + oracle ----
     disagreements = []
     oracle_fail = []
+    discarded = 0
     for k, (l, m, i) in enumerate(zip(lines, model, impl)):
         if i is None:
             continue
-        toks = V.oracle_tokens(i)
+        toks = [t for t in V.oracle_tokens(i) if prop.relevant(t)]
         if toks:
             oracle_fail.append((k, toks))
-        if m is not None and strip_oracle(i) != m:
+        if m is not None and "NOTE_OUT_OF_REGIME" in m:
+            discarded += 1
+            continue
+        if m is not None and strip_oracle(i) != strip_oracle(m):
             disagreements.append(k)
     known = V.known_findings(pid)
     new_fail = []
@@ -189,7 +193,7 @@ def main():
             for k, (l, i) in enumerate(zip(extra, eimpl)):
                 if i is None:
                     continue
-                toks = V.oracle_tokens(i)
+                toks = [t for t in V.oracle_tokens(i) if prop.relevant(t)]
                 cov, unc = known_match(known, toks)
                 if unc:
                     lines.append(l)
@@ -229,7 +233,7 @@ def main():
         disagreements=len(disagreements),
         oracle_failures_known=sum(v[1] for v in known_hits.values()),
         oracle_failures_new=len(new_fail),
-        corpus_cases=n_corpus, families=fams, enlarged_search_cases=searched,
+        corpus_cases=n_corpus, families=fams, discarded_out_of_exact_regime=discarded, enlarged_search_cases=searched,
         histogram=prop.histogram(lines),
         exhaustive=False)
     violations = 1 if (new_fail or disagreements or proof_broken) else 0
